@@ -1,2 +1,3 @@
 import HpoProofs.Group
 import HpoProofs.TermId
+import HpoProofs.Binary
